@@ -366,6 +366,19 @@ def check_value(ctx, ser, v, tr=None):
             ctx.fail("lossless-changed-%s" % ser, "%s: lossless-core value changed on the wire: sent %s got %s"
                      % (ser, repr(V.norm(tr))[:200], repr(res)[:200]), case)
             return
+    # nested position: a list / tuple / set whose elements are each delivered when sent alone is delivered, element by
+    # element as those values (json, msgpack: as a list; serpent: lists).  marshal converts only the top level, so not there.
+    if tr[0] in ("L", "U", "E") and len(tr[1]) <= 8 and (ser in ("json", "msgpack") or (ser == "serpent" and tr[0] == "L")):
+        elems = [c01.outcome(lambda x=x: s.loads(s.dumps(x)), True)[0] for x in (list(v))]
+        if all(e[0] == "ok" for e in elems):
+            want = [e[1] for e in elems]
+            got = list(res[1][1]) if (res[0] == "ok" and res[1][0] == "L") else None
+            same = got is not None and (sorted(map(repr, got)) == sorted(map(repr, want)) if tr[0] == "E" else got == want)
+            if not same:
+                ctx.fail("container-not-elementwise-%s" % ser,
+                         "%s: every element of %s is delivered when sent alone (%s) but the container arrives as %s"
+                         % (ser, repr(V.norm(tr, True))[:160], repr(want)[:160], repr(res)[:160]), case)
+                return
     if res[0] == "ok":
         again, _ = c01.outcome(lambda: s.loads(s.dumps(res_raw)), True)
         if again != res:
